@@ -255,7 +255,7 @@ struct TwinEnv : Family {
 				disk::get(outp, out[key + ":vol-bytes"]);
 				{
 					std::string xdir = "vx" + std::to_string(oi);
-					if (stale) for (auto& in : ins) { std::vector<uint8_t> old(in.data.size()); for (size_t q = 0; q < old.size(); ++q) old[q] = static_cast<uint8_t>(~in.data[q]); disk::put(xdir + "/" + in.name, old); }
+					if (stale) for (auto& in : ins) { std::vector<uint8_t> old = digestDecoy(in.data, mix64(e.perm, in.data.size())); disk::put(xdir + "/" + in.name, old); }
 					must(callLib(plan, [&] { Archive::VolFile vf(outp); vf.ExtractAllFiles(xdir); }, &what), "extracting the volume");
 					for (auto& in : ins) { std::vector<uint8_t> f; if (disk::get(xdir + "/" + in.name, f)) out[key + ":vol-x:" + in.name] = f; }
 				}
